@@ -10,8 +10,9 @@ DIR=$(head -1 "$S/demo_test.go" | grep -o 'modules/[A-Za-z0-9_/.-]*' | head -1);
 [ -d "$DIR" ] || { echo "$S: cannot find demo directory ($DIR)"; exit 2; }
 cp "$S/demo_test.go" "$DIR/zz_seeded_demo_test.go"
 TESTS=$(grep -o '^func \(Test[A-Za-z0-9_]*\)' "$DIR/zz_seeded_demo_test.go" | sed 's/func //' | tr '\n' '|' | sed 's/|$//')
-SUITEFN=$(grep -o 'func (suite \*[A-Za-z]*) \(Test[A-Za-z0-9_]*\)' "$DIR/zz_seeded_demo_test.go" | awk '{print $4}' | tr '\n' '|' | sed 's/|$//')
+SUITEFN=$(grep -o 'func (suite \*\?[A-Za-z]*) \(Test[A-Za-z0-9_]*\)' "$DIR/zz_seeded_demo_test.go" | awk '{print $4}' | tr '\n' '|' | sed 's/|$//')
 RUNARG="-run ^($TESTS)\$"
+if [ -z "$TESTS" ] && [ -z "$SUITEFN" ]; then echo "$S: no test function found in the demonstration"; rm -f "$DIR/zz_seeded_demo_test.go"; exit 2; fi
 if [ -z "$TESTS" ] && [ -n "$SUITEFN" ]; then RUNARG="-run . -testify.m ^($SUITEFN)\$"; fi
 go test -tags verif -count=1 "./$DIR/" $RUNARG > /tmp/confirm_clean.$$ 2>&1; c1=$?
 git apply "$S/patch.diff" || { echo "$S: patch does not apply"; rm -f "$DIR/zz_seeded_demo_test.go"; exit 2; }
